@@ -140,6 +140,8 @@ def normalise_tree(tree: ast.AST) -> None:
        N2  `if not A: B else: C` (a real else, not an elif)                  ->  `if A: C else: B`
        N3  'a' + f'{x}' + 'b'                                                ->  f'a{x}b'
        N4  `CONST == x` (constant-like operand on the left of == != is is not) ->  `x == CONST`
+       N5  (after indexing) keyword arguments of dataclass constructors that continue the positional ones -> positional
+       N6  `for ...: if c: continue; REST`                                   ->  `for ...: if not c: REST`
     Node positions of the kept nodes are unchanged."""
     for fn in [n for n in ast.walk(tree) if isinstance(n, (ast.FunctionDef, ast.AsyncFunctionDef))]:
         counts: Dict[str, int] = {}
@@ -156,19 +158,55 @@ def normalise_tree(tree: ast.AST) -> None:
             if isinstance(n, ast.Try):
                 for h in n.handlers:
                     blocks.append(h.body)
-        cands = []
-        for blk in blocks:
-            for i in range(len(blk) - 1):
-                a, r = blk[i], blk[i + 1]
-                if isinstance(a, ast.Assign) and len(a.targets) == 1 and isinstance(a.targets[0], ast.Name) and \
-                        isinstance(r, ast.Return) and isinstance(r.value, ast.Name) and r.value.id == a.targets[0].id:
-                    pairs[a.targets[0].id] = pairs.get(a.targets[0].id, 0) + 1
-                    cands.append((blk, a, r))
-        for blk, a, r in cands:
-            nm = a.targets[0].id
-            if counts.get(nm, 0) == 2 * pairs[nm]:
-                r.value = a.value
-                blk.remove(a)
+        def pure_(e) -> bool:
+            return not any(isinstance(x, (ast.Call, ast.Await, ast.Yield, ast.YieldFrom, ast.NamedExpr, ast.Lambda, ast.ListComp,
+                                          ast.SetComp, ast.DictComp, ast.GeneratorExp)) for x in ast.walk(e))
+
+        # N1 (generalised): `x = E` immediately followed by `return F(x)` with x read exactly once there and nowhere else
+        #   ->  `return F(E)`   when E or the rest of F is free of calls (evaluation order cannot matter); applied repeatedly
+        again = True
+        while again:
+            again = False
+            counts = {}
+            for n in ast.walk(fn):
+                if isinstance(n, ast.Name):
+                    counts[n.id] = counts.get(n.id, 0) + 1
+            for blk in blocks:
+                for i in range(len(blk) - 1):
+                    a, r = blk[i], blk[i + 1]
+                    if isinstance(a, ast.Assign) and len(a.targets) == 1 and isinstance(a.targets[0], ast.Name) and \
+                            isinstance(r, ast.Return) and r.value is not None:
+                        nm = a.targets[0].id
+                        loads = [x for x in ast.walk(r.value) if isinstance(x, ast.Name) and x.id == nm]
+                        if len(loads) != 1 or counts.get(nm, 0) != 2:
+                            continue
+                        if any(isinstance(x, (ast.Lambda, ast.ListComp, ast.SetComp, ast.DictComp, ast.GeneratorExp))
+                               and any(y is loads[0] for y in ast.walk(x)) for x in ast.walk(r.value)):
+                            continue        # would move the evaluation into a deferred / repeated context
+                        rest_pure = all(isinstance(x, (ast.Name, ast.Attribute, ast.Constant, ast.UnaryOp, ast.BoolOp, ast.Compare,
+                                                       ast.BinOp, ast.IfExp, ast.Tuple, ast.List, ast.JoinedStr, ast.FormattedValue,
+                                                       ast.Subscript, ast.expr_context, ast.operator, ast.unaryop, ast.boolop,
+                                                       ast.cmpop, ast.Starred, ast.keyword, ast.Call))
+                                        for x in ast.walk(r.value))
+                        n_calls = sum(isinstance(x, ast.Call) for x in ast.walk(r.value))
+                        if not (pure_(a.value) or n_calls <= 1 and rest_pure):
+                            continue
+                        if loads[0] is r.value:
+                            r.value = a.value
+                        else:
+                            for par in ast.walk(r.value):
+                                for fld, val in ast.iter_fields(par):
+                                    if val is loads[0]:
+                                        setattr(par, fld, a.value)
+                                    elif isinstance(val, list):
+                                        for k, item in enumerate(val):
+                                            if item is loads[0]:
+                                                val[k] = a.value
+                        blk.remove(a)
+                        again = True
+                        break
+                if again:
+                    break
     for n in ast.walk(tree):
         if isinstance(n, ast.If) and isinstance(n.test, ast.UnaryOp) and isinstance(n.test.op, ast.Not) and n.orelse and \
                 not (len(n.orelse) == 1 and isinstance(n.orelse[0], ast.If)):
@@ -198,6 +236,26 @@ def normalise_tree(tree: ast.AST) -> None:
             return node
     Fold().visit(tree)
 
+    # N6  `for x in xs: if c: continue; REST`  ->  `for x in xs: if not c: REST`   (guard clauses of a loop body)
+    changed = True
+    while changed:
+        changed = False
+        for n in ast.walk(tree):
+            if isinstance(n, (ast.For, ast.AsyncFor)):
+                for i, st in enumerate(n.body):
+                    if isinstance(st, ast.If) and not st.orelse and len(st.body) == 1 and isinstance(st.body[0], ast.Continue):
+                        rest = n.body[i + 1:]
+                        if not rest:
+                            del n.body[i:]
+                            if not n.body:
+                                n.body.append(ast.copy_location(ast.Pass(), st))
+                        else:
+                            test = st.test.operand if isinstance(st.test, ast.UnaryOp) and isinstance(st.test.op, ast.Not) \
+                                else ast.copy_location(ast.UnaryOp(op=ast.Not(), operand=st.test), st.test)
+                            n.body[i:] = [ast.copy_location(ast.If(test=test, body=rest, orelse=[]), st)]
+                        changed = True
+                        break
+
     # N4  `CONST == x` / `CONST != x` / `None is x`  ->  `x == CONST` ...   (the constant-like operand on the right)
     def const_like(e) -> bool:
         if isinstance(e, ast.Constant):
@@ -225,6 +283,7 @@ class Program:
         self.classes: Dict[str, ClassInfo] = {}       # fq -> ClassInfo
         self.functions: Dict[str, FuncInfo] = {}      # fq -> FuncInfo (all incl. methods, nested)
         self._parents: Dict[int, ast.AST] = {}
+        self.inlined: List[Tuple[str, str]] = []         # N7: (caller, inlined helper)
         self._load()
         self._index()
 
@@ -318,7 +377,342 @@ class Program:
                 for stmt in cls.node.body:
                     if isinstance(stmt, ast.Assign) and len(stmt.targets) == 1 and isinstance(stmt.targets[0], ast.Name):
                         cls.enum_members[stmt.targets[0].id] = stmt.value
+        self._inline_expression_helpers()
+        self._unroll_literal_iterations()
+        self._inline_expression_helpers(max_rounds=1)      # helpers that became single expressions by unrolling
         self._normalise_ctor_keywords()
+        # the normal forms moved nodes around: recompute the parent links
+        self._parents.clear()
+        for mod in self.modules.values():
+            for node in ast.walk(mod.tree):
+                for child in ast.iter_child_nodes(node):
+                    self._parents[id(child)] = node
+
+    # -- N7 ----------------------------------------------------------------------------------------------------------
+    def _inline_expression_helpers(self, max_rounds: int = 3):
+        """N7  a call of a helper of the SAME module (a module-level function, or `self.<method>` of the same class) whose
+        body is a single `return <expression>` is replaced by that expression with the arguments substituted:
+            def is_exposed(port): return not (port.direction != PROVIDES and port.injected.value)
+            if not is_exposed(p): ...        ->      if not (not (p.direction != PROVIDES and p.injected.value)): ...
+        "Extract helper" is the most common refactoring; with this normal form the shape rules see the same code before and
+        after it.  The helper itself stays in the model (it is analysed as a function of its own as well).  Conditions:
+        callee resolved statically, no *args / **kwargs / yield / lambda, no recursion, every argument either a side-effect
+        free expression or bound to a parameter that the body uses at most once; bound variables of comprehensions in the
+        inlined body are renamed apart."""
+        import copy
+        import itertools
+        counter = itertools.count(1)
+
+        def body_expr(f: FuncInfo) -> Optional[ast.expr]:
+            if f.is_property or f.is_setter or f.parent is not None or f.node.decorator_list and not f.is_static:
+                return None
+            a = f.node.args
+            if a.vararg or a.kwarg:
+                return None
+            body = [st for st in f.node.body
+                    if not (isinstance(st, ast.Expr) and isinstance(st.value, ast.Constant) and isinstance(st.value.value, str))]
+            if len(body) != 1 or not isinstance(body[0], ast.Return) or body[0].value is None:
+                return None
+            if any(isinstance(x, (ast.Yield, ast.YieldFrom, ast.Lambda, ast.NamedExpr, ast.Await)) for x in ast.walk(body[0].value)):
+                return None
+            return body[0].value
+
+        def pure(e: ast.expr) -> bool:
+            return all(isinstance(x, (ast.Name, ast.Attribute, ast.Constant, ast.Load, ast.Tuple, ast.List, ast.UnaryOp, ast.Not,
+                                      ast.USub, ast.expr_context)) for x in ast.walk(e))
+
+        def overridden(f: FuncInfo) -> bool:
+            if f.cls is None:
+                return False
+            for c in self.classes.values():
+                if c is not f.cls and f.name in c.methods and (f.cls in [a for a in self.ancestors(c) if isinstance(a, ClassInfo)]):
+                    return True
+            return False
+
+        def resolve(caller: FuncInfo, call: ast.Call) -> Optional[Tuple[FuncInfo, Optional[ast.expr]]]:
+            fnode = call.func
+            if isinstance(fnode, ast.Name):
+                # not shadowed by a local / parameter of the caller
+                for x in ast.walk(caller.node):
+                    if isinstance(x, ast.Name) and x.id == fnode.id and isinstance(x.ctx, ast.Store):
+                        return None
+                if fnode.id in [a.arg for a in caller.params()]:
+                    return None
+                sym = self.resolve_name(caller.module, fnode.id)
+                if isinstance(sym, FuncInfo) and sym.module is caller.module and sym.cls is None:
+                    return sym, None
+            elif isinstance(fnode, ast.Attribute) and isinstance(fnode.value, ast.Name) and fnode.value.id == 'self' and \
+                    caller.cls is not None and caller.parent is None:
+                m = self.lookup_method(caller.cls, fnode.attr)
+                if m is not None and m.module is caller.module and not m.is_static and not overridden(m):
+                    return m, fnode.value
+            return None
+
+        for _round in range(max_rounds):
+            changed = False
+            for caller in list(self.functions.values()):
+                for call in [n for n in ast.walk(caller.node) if isinstance(n, ast.Call)]:
+                    r = resolve(caller, call)
+                    if r is None:
+                        continue
+                    callee, recv = r
+                    if callee is caller:
+                        continue
+                    expr = body_expr(callee)
+                    if expr is None or any(isinstance(a, ast.Starred) for a in call.args) or any(k.arg is None for k in call.keywords):
+                        continue
+                    if any(isinstance(x, ast.Call) and self._same_callee(callee, x) for x in ast.walk(expr)):
+                        continue        # recursive helper
+                    a = callee.node.args
+                    params = [p_.arg for p_ in list(a.posonlyargs) + list(a.args)]
+                    binding: Dict[str, ast.expr] = {}
+                    if recv is not None and params[:1] == ['self']:
+                        binding['self'] = recv
+                        params = params[1:]
+                    if len(call.args) > len(params):
+                        continue
+                    for p_, v in zip(params, call.args):
+                        binding[p_] = v
+                    ok = True
+                    for k in call.keywords:
+                        if k.arg in binding or k.arg not in params + [x.arg for x in a.kwonlyargs]:
+                            ok = False
+                        binding[k.arg] = k.value
+                    pos_all = list(a.posonlyargs) + list(a.args)
+                    defaults = dict(zip([x.arg for x in pos_all][len(pos_all) - len(a.defaults):], a.defaults))
+                    defaults.update({x.arg: d for x, d in zip(a.kwonlyargs, a.kw_defaults) if d is not None})
+                    for p_ in params + [x.arg for x in a.kwonlyargs]:
+                        if p_ not in binding:
+                            if p_ in defaults and pure(defaults[p_]):
+                                binding[p_] = defaults[p_]
+                            else:
+                                ok = False
+                    if not ok:
+                        continue
+                    uses = {}
+                    for x in ast.walk(expr):
+                        if isinstance(x, ast.Name):
+                            uses[x.id] = uses.get(x.id, 0) + 1
+                    if any(not pure(v) and uses.get(p_, 0) > 1 for p_, v in binding.items()):
+                        continue
+                    # names the body reads from its module must mean the same at the call site (same module: they do),
+                    # comprehension variables are renamed apart
+                    new = copy.deepcopy(expr)
+                    bound = {}
+                    for x in ast.walk(new):
+                        if isinstance(x, ast.comprehension):
+                            for t in ast.walk(x.target):
+                                if isinstance(t, ast.Name):
+                                    bound.setdefault(t.id, f'{t.id}__i{next(counter)}')
+
+                    class Sub(ast.NodeTransformer):
+                        def visit_Name(self, node):
+                            if node.id in bound:
+                                return ast.copy_location(ast.Name(id=bound[node.id], ctx=node.ctx), node)
+                            if node.id in binding and isinstance(node.ctx, ast.Load):
+                                return copy.deepcopy(binding[node.id])
+                            return node
+                    new = Sub().visit(new)
+                    for x in ast.walk(new):
+                        if hasattr(x, 'lineno') or isinstance(x, (ast.expr, ast.stmt)):
+                            x.lineno, x.col_offset = getattr(call, 'lineno', 0), getattr(call, 'col_offset', 0)
+                            x.end_lineno, x.end_col_offset = getattr(call, 'end_lineno', 0), getattr(call, 'end_col_offset', 0)
+                    par = self._parents.get(id(call))
+                    if par is None:
+                        continue
+                    replaced = False
+                    for fld, val in ast.iter_fields(par):
+                        if val is call:
+                            setattr(par, fld, new)
+                            replaced = True
+                        elif isinstance(val, list):
+                            for i, item in enumerate(val):
+                                if item is call:
+                                    val[i] = new
+                                    replaced = True
+                    if replaced:
+                        changed = True
+                        self._parents[id(new)] = par
+                        for x in ast.walk(new):
+                            for ch in ast.iter_child_nodes(x):
+                                self._parents[id(ch)] = x
+                        self.inlined.append((caller.fq, callee.fq))
+            if not changed:
+                break
+
+    # -- N8 / N9 / N10 -------------------------------------------------------------------------------------------------
+    def _unroll_literal_iterations(self):
+        """N8   `for a, b in ((x1, y1), (x2, y2)): BODY`  (a literal sequence of at most 6 side-effect free elements, possibly
+                  through a single-definition local; no break / continue / else; the targets are not used elsewhere)
+                  ->  BODY[a:=x1, b:=y1]; BODY[a:=x2, b:=y2]
+           N9   `Cls.method(obj, args)` with Cls a class of the package and `method` an instance method  ->  `obj.method(args)`
+           N10  `next((E for a in LIT if C), D)`  ->  `E1 if C1 else E2 if C2 else ... D`;
+                `any(C for a in LIT)` / `all(...)`  ->  `C1 or C2 ...` / `C1 and C2 ...`
+        Table-driven code ("a tuple of (matcher, result) rules tried in order") and the if / elif chain it replaces have the
+        same normal form."""
+        import copy
+
+        def pure(e) -> bool:
+            return all(isinstance(x, (ast.Name, ast.Attribute, ast.Constant, ast.expr_context)) for x in ast.walk(e))
+
+        def literal_elems(fnode, it: ast.expr) -> Optional[List[ast.expr]]:
+            if isinstance(it, ast.Name):
+                stores = [x for x in ast.walk(fnode) if isinstance(x, ast.Name) and x.id == it.id and isinstance(x.ctx, ast.Store)]
+                defs = [x for x in ast.walk(fnode) if isinstance(x, ast.Assign) and len(x.targets) == 1 and
+                        isinstance(x.targets[0], ast.Name) and x.targets[0].id == it.id]
+                if len(stores) != 1 or len(defs) != 1 or it.id in [a.arg for a in fnode.args.args + fnode.args.kwonlyargs]:
+                    return None
+                it = defs[0].value
+            if not isinstance(it, (ast.Tuple, ast.List)) or not (1 <= len(it.elts) <= 6):
+                return None
+            if any(isinstance(x, ast.Starred) for x in it.elts):
+                return None
+            return list(it.elts)
+
+        def bindings(target, elems) -> Optional[List[Dict[str, ast.expr]]]:
+            out = []
+            for el in elems:
+                if isinstance(target, ast.Name):
+                    if not pure(el):
+                        return None
+                    out.append({target.id: el})
+                elif isinstance(target, (ast.Tuple, ast.List)) and all(isinstance(t, ast.Name) for t in target.elts) and \
+                        isinstance(el, (ast.Tuple, ast.List)) and len(el.elts) == len(target.elts) and all(pure(x) for x in el.elts):
+                    out.append({t.id: v for t, v in zip(target.elts, el.elts)})
+                else:
+                    return None
+            return out
+
+        def subst(node, binding):
+            class Sub(ast.NodeTransformer):
+                def visit_Name(self, n):
+                    if n.id in binding and isinstance(n.ctx, ast.Load):
+                        return ast.copy_location(copy.deepcopy(binding[n.id]), n)
+                    return n
+            return Sub().visit(copy.deepcopy(node))
+
+        def names_stored(nodes) -> Set[str]:
+            return {x.id for n in nodes for x in ast.walk(n) if isinstance(x, ast.Name) and isinstance(x.ctx, ast.Store)}
+
+        for mod in self.modules.values():
+            for fnode in [n for n in ast.walk(mod.tree) if isinstance(n, (ast.FunctionDef, ast.AsyncFunctionDef))]:
+                for _round in range(4):
+                    changed = False
+                    # N9 first: unbound method calls
+                    for c in [n for n in ast.walk(fnode) if isinstance(n, ast.Call)]:
+                        if isinstance(c.func, ast.Attribute) and isinstance(c.func.value, (ast.Name, ast.Attribute)) and c.args and \
+                                not isinstance(c.args[0], ast.Starred):
+                            sym = self.resolve_expr_symbol(mod, c.func.value)
+                            if isinstance(sym, ClassInfo):
+                                m = self.lookup_method(sym, c.func.attr)
+                                if m is not None and not m.is_static and not m.is_property and m.params()[:1] and \
+                                        m.params()[0].arg == 'self' and not any(
+                                            isinstance(d, ast.Name) and d.id == 'classmethod' for d in m.node.decorator_list):
+                                    c.func = ast.copy_location(ast.Attribute(value=c.args[0], attr=c.func.attr, ctx=ast.Load()), c.func)
+                                    c.args = c.args[1:]
+                                    changed = True
+                    # N10: next / any / all over a generator over a literal sequence
+                    for par in list(ast.walk(fnode)):
+                        for fld, val in list(ast.iter_fields(par)):
+                            items = val if isinstance(val, list) else [val]
+                            for k, c in enumerate(items):
+                                if not (isinstance(c, ast.Call) and isinstance(c.func, ast.Name) and c.func.id in ('next', 'any', 'all')
+                                        and c.args and isinstance(c.args[0], (ast.GeneratorExp, ast.ListComp)) and not c.keywords):
+                                    continue
+                                g = c.args[0]
+                                if len(g.generators) != 1 or g.generators[0].is_async:
+                                    continue
+                                gen = g.generators[0]
+                                elems = literal_elems(fnode, gen.iter)
+                                bs = bindings(gen.target, elems) if elems is not None else None
+                                if bs is None:
+                                    continue
+                                new = None
+                                if c.func.id == 'next' and len(c.args) == 2:
+                                    new = c.args[1]
+                                    for b in reversed(bs):
+                                        test = None
+                                        for cnd in gen.ifs:
+                                            t_ = subst(cnd, b)
+                                            test = t_ if test is None else ast.BoolOp(op=ast.And(), values=[test, t_])
+                                        val_ = subst(g.elt, b)
+                                        new = val_ if test is None else ast.IfExp(test=test, body=val_, orelse=new)
+                                elif c.func.id in ('any', 'all') and len(c.args) == 1 and not gen.ifs:
+                                    new = ast.BoolOp(op=ast.Or() if c.func.id == 'any' else ast.And(), values=[subst(g.elt, b) for b in bs])
+                                    if len(new.values) == 1:
+                                        new = new.values[0]
+                                if new is None:
+                                    continue
+                                for x in ast.walk(new):
+                                    ast.copy_location(x, c)
+                                if isinstance(val, list):
+                                    val[k] = new
+                                else:
+                                    setattr(par, fld, new)
+                                changed = True
+                    # N8: for statements
+                    for par in list(ast.walk(fnode)):
+                        for fld in ('body', 'orelse', 'finalbody'):
+                            blk = getattr(par, fld, None)
+                            if not (isinstance(blk, list) and blk and isinstance(blk[0], ast.stmt)):
+                                continue
+                            for i, st in enumerate(blk):
+                                if not isinstance(st, ast.For) or st.orelse:
+                                    continue
+                                # `... ; if c: S; break` as the last statement: the first hit ends the search
+                                first_hit = None
+                                if st.body and isinstance(st.body[-1], ast.If) and not st.body[-1].orelse and st.body[-1].body and \
+                                        isinstance(st.body[-1].body[-1], ast.Break):
+                                    others = [x for b_ in st.body[:-1] + st.body[-1].body[:-1] for x in ast.walk(b_)]
+                                    if not any(isinstance(x, (ast.Break, ast.Continue)) for x in others) and len(st.body[-1].body) > 1:
+                                        first_hit = st.body[-1]
+                                if first_hit is None and \
+                                        any(isinstance(x, (ast.Break, ast.Continue)) for b_ in st.body for x in ast.walk(b_)):
+                                    continue
+                                elems = literal_elems(fnode, st.iter)
+                                bs = bindings(st.target, elems) if elems is not None else None
+                                if bs is None:
+                                    continue
+                                tnames = set(bs[0])
+                                if tnames & names_stored(st.body):
+                                    continue
+                                outside = [x for x in ast.walk(fnode) if isinstance(x, ast.Name) and x.id in tnames]
+                                # every occurrence lies in this loop or in another loop / comprehension that binds the same
+                                # names itself
+                                binders = [st] + [n for n in ast.walk(fnode) if n is not st and (
+                                    (isinstance(n, ast.For) and tnames <= {x.id for x in ast.walk(n.target) if isinstance(x, ast.Name)})
+                                    or (isinstance(n, (ast.ListComp, ast.SetComp, ast.GeneratorExp, ast.DictComp)) and tnames <= {
+                                        x.id for g_ in n.generators for x in ast.walk(g_.target) if isinstance(x, ast.Name)}))
+                                    and not any(y is n for y in ast.walk(st))]
+                                covered = set()
+                                for b_ in binders:
+                                    covered |= {id(x) for x in ast.walk(b_) if isinstance(x, ast.Name) and x.id in tnames}
+                                if any(id(x) not in covered for x in outside):
+                                    continue        # the loop variables are used outside the loop as well
+                                new_stmts = []
+                                if first_hit is not None:
+                                    tail: List[ast.stmt] = []
+                                    for b in reversed(bs):
+                                        pre = [subst(s_, b) for s_ in st.body[:-1]]
+                                        hit = ast.copy_location(ast.If(test=subst(first_hit.test, b),
+                                                                       body=[subst(s_, b) for s_ in first_hit.body[:-1]],
+                                                                       orelse=tail), first_hit)
+                                        tail = pre + [hit]
+                                    new_stmts = tail
+                                else:
+                                    for b in bs:
+                                        for s_ in st.body:
+                                            new_stmts.append(subst(s_, b))
+                                blk[i:i + 1] = new_stmts
+                                changed = True
+                                break
+                    if not changed:
+                        break
+
+    def _same_callee(self, callee: FuncInfo, call: ast.Call) -> bool:
+        f = call.func
+        return (isinstance(f, ast.Name) and f.id == callee.name and callee.cls is None) or \
+            (isinstance(f, ast.Attribute) and f.attr == callee.name and callee.cls is not None)
 
     def bind_call(self, mod: Module, call: ast.Call) -> Dict[str, ast.expr]:
         """parameter / field name -> argument expression of a call of a package class or function, however the source
